@@ -50,6 +50,10 @@ def gen(rng, idx, tier, seed):
     spec['dhour'] = 1       # C08 is quantified over hourly steps
     spec['src'] = 'direct' if (idx // len(refcamx.FORMATS)) % 3 == 2 \
         else 'image'
+    if fmt in ('uamiv', 'lateral_boundary') and rng.random() < 0.35:
+        # end of a step at midnight written as hour 24 of the ending day
+        spec['eod24'] = True
+        spec['shour'] = (24 - int(rng.integers(1, spec['nt'] + 1))) % 24
     if rng.random() < 0.3:
         # names that are prefixes of one another
         spec['names'] = ['NO', 'NO2', 'NO2X', 'N'][:max(2, len(
@@ -83,6 +87,7 @@ def build_direct(spec):
     todo = order + ([] if fmt == 'landuse' else ['TFLAG'])
     if rng.random() < 0.5 and fmt != 'landuse':
         todo = ['TFLAG'] + order
+    et = refcamx.end_times(spec)
     for k in todo:
         if k == 'TFLAG':
             tf = f.createVariable('TFLAG', 'i', ('TSTEP', 'VAR', 'DATE-TIME'))
@@ -90,6 +95,14 @@ def build_direct(spec):
             for t in range(spec['nt']):
                 tf[t, :, 0] = st[t][0]
                 tf[t, :, 1] = st[t][1] * 10000
+            if spec.get('eod24'):
+                # explicit end times in the hour-24 convention
+                ef = f.createVariable('ETFLAG', 'i',
+                                      ('TSTEP', 'VAR', 'DATE-TIME'))
+                ef.units = '<YYYYDDD,HHMMSS>'
+                for t in range(spec['nt']):
+                    ef[t, :, 0] = et[t][0]
+                    ef[t, :, 1] = et[t][1] * 10000
             continue
         a = c['vars'][k]
         if fmt == 'lateral_boundary':
